@@ -288,6 +288,130 @@ def judge(o, c, run, follow, fresh, where, recheck=None):
     return real
 
 
+
+# ---------------------------------------------------------------------------
+# sessions: every #invoke runs under its own limit, whatever the previous one left
+# (spec/LuaSession.tla; counterexample of the design that keeps an installed hook:
+#  Demo_LuaSession_kept.cfg)
+# ---------------------------------------------------------------------------
+SESSION_MODULES = {
+    "c07s": "local p = {}\nfunction p.heavy(frame) local s = 0 for i = 1, 3000000 do s = s + (i % 7) end return 'sum=' .. s end\n"
+            "function p.spin(frame) while true do end end\nreturn p\n",
+    "c07bad": "local p = {}\nfunction p.f(frame) return 'x' end\nreturn p p\n",  # chunk does not compile
+}
+ERR_ELEM = re.compile(r'^<strong class="error">Lua execution error in Module:[\w:]+ function \w+</strong>$')
+TMO_ELEM = re.compile(r'^<strong class="error">Lua timeout error in Module:[\w:]+ function \w+</strong>$')
+
+
+def session_child(sess, d, conn):
+    sys.stdout = open(os.devnull, "w")
+    sys.stderr = open(os.devnull, "w")
+    common.use_repo()
+    from wikitextprocessor import Wtp
+
+    sub = Path(d) / "db"
+    sub.mkdir(parents=True)
+    ctx = Wtp(db_path=sub / "pages.db", quiet=True)
+    mods = {"ustring:ustring": luafix.USTRING_STUB, "libraryUtil": luafix.LIBRARYUTIL_STUB}
+    mods.update(SESSION_MODULES)
+    luafix.add_modules(ctx, mods)
+    ctx.db_conn.commit()
+    ctx.start_page("Tt")
+    call = {"heavy": "{{#invoke:c07s|heavy}}", "spin": "{{#invoke:c07s|spin}}", "nofn": "{{#invoke:c07s|nosuchfn}}",
+            "nomod": "{{#invoke:c07nomodule|f}}", "bad": "{{#invoke:c07bad|f}}"}
+    for i, st in enumerate(sess):
+        if st["k"] == "pause":
+            time.sleep(LIMIT + 1.3)
+            conn.send((i, "paused", 0.0, None))
+            continue
+        t0 = time.time()
+        try:
+            out = ctx.expand(call[st["k"]], timeout=(LIMIT if st["lim"] == 1 else None))
+        except BaseException as e:  # noqa: BLE001
+            out = "EXC " + repr(e)[:200]
+        conn.send((i, "done", time.time() - t0, out))
+    conn.close()
+    os._exit(0)
+
+
+def run_sessions(sessions, base: Path, nproc: int = 16):
+    """Each session in its own child process with a hard kill."""
+    ctxm = mp.get_context("fork")
+    res = [None] * len(sessions)
+    pending = list(enumerate(sessions))
+    running = []
+    while pending or running:
+        while pending and len(running) < nproc:
+            idx, sess = pending.pop(0)
+            pc, cc = ctxm.Pipe(False)
+            pr = ctxm.Process(target=session_child, args=(sess, str(base / f"s{idx}"), cc))
+            pr.start()
+            cc.close()
+            budget = sum((LIMIT + 1.5) if st["k"] == "pause" else (LIMIT + KILL) for st in sess) + 10
+            running.append((idx, pr, pc, time.time() + budget, []))
+        still = []
+        for idx, pr, pc, deadline, got in running:
+            while pc.poll(0):
+                try:
+                    got.append(pc.recv())
+                except EOFError:
+                    break
+            if not pr.is_alive() or time.time() > deadline:
+                if pr.is_alive():
+                    pr.kill()
+                pr.join()
+                while pc.poll(0):
+                    try:
+                        got.append(pc.recv())
+                    except EOFError:
+                        break
+                res[idx] = got
+            else:
+                still.append((idx, pr, pc, deadline, got))
+        running = still
+        time.sleep(0.05)
+    return res
+
+
+def session_outcome(st, rec):
+    if rec is None:
+        return "hung"
+    _, kind, elapsed, out = rec
+    if kind == "paused":
+        return "paused"
+    if isinstance(out, str) and out.startswith("EXC "):
+        return "exception"
+    if isinstance(out, str) and TMO_ELEM.match(out):
+        return "timeout-in-bound" if (st["k"] == "spin" and elapsed <= LIMIT + BOUND) else ("timeout-late" if st["k"] == "spin" else "timeout")
+    if isinstance(out, str) and ERR_ELEM.match(out):
+        return "error"
+    return "value"
+
+
+def check_sessions(o, d: Path):
+    r = tlc("Gen_LuaSession", "Gen_LuaSession.cfg", workers=1)
+    o.add_tlc("Gen_LuaSession (every invocation under its own limit)", r)
+    dm = tlc("Gen_LuaSession", "Demo_LuaSession_kept.cfg", workers=1, check=False)
+    if not dm.invariant_violated:
+        raise common.TLCError("Demo_LuaSession_kept lost its counterexample")
+    cases = r.cases
+    res = run_sessions([c["sess"] for c in cases], d / "sessions")
+    for c, got in zip(cases, res):
+        o.traces += 1
+        o.shape(("session", common.json_key(c["sess"])))
+        by_i = {g[0]: g for g in got}
+        for i, st in enumerate(c["sess"]):
+            o.evaluations += 1
+            real = session_outcome(st, by_i.get(i))
+            if real != c["out"][i]:
+                o.violation({"kind": "session", "session": c["sess"], "step": i, "observed": real, "required": c["out"][i],
+                             "detail": [list(g) for g in got]},
+                            f"step {i} ({st['k']}, limit {st['lim']}) of the session {[x['k'] for x in c['sess']]} gave {real!r}; every invocation must run under its own limit: {c['out'][i]!r}",
+                            cls="session-" + st["k"])
+                break
+    o.sample({"session": cases[0]["sess"], "required": cases[0]["out"]})
+
+
 def run(tier: str) -> int:
     o = Outcome(PID, tier)
     thorough = tier == "thorough"
@@ -400,6 +524,8 @@ def run(tier: str) -> int:
                         break
         if hists:
             o.sample({"history": [key(c) for c in hists[0]], "then": [t for t, _ in FOLLOW[:3]]})
+        # ---- sessions (spec/LuaSession.tla)
+        check_sessions(o, d)
         # ---- V: recorded event traces validated by TLC
         validate_traces(o, traces, d)
     o.exhaustive = True
